@@ -503,14 +503,14 @@ Section NoMem.
     - rewrite ahash_assign. apply assign_root_key. exact RP1.
   Qed.
 
-  Lemma do_save_closed : forall ord s t bh rh s',
-    closed s -> tree_ready (s_db s) t -> do_save ord c s t bh rh = Some s' ->
+  Lemma do_save_closed : forall s t bh s',
+    closed s -> tree_ready (s_db s) t -> do_save c s t bh = Some s' ->
     store_sound s' ->
     db_closed (s_db s') /\ lru_closed (s_db s') (s_lru s') /\
     (forall K, bound (s_db s) K -> bound (s_db s') K) /\ bound (s_db s') (None, ahash t) /\
     s_pend s' = s_pend s.
   Proof.
-    intros ord s t bh rh s' (S & D & L & P) (H1 & H2 & H3 & H4) H SS. unfold do_save in H. rewrite NP in H.
+    intros s t bh s' (S & D & L & P) (H1 & H2 & H3 & H4) H SS. unfold do_save in H. rewrite NP in H.
     pose proof (asave_closed (c_mvcc c) t (s_db s) (s_lru s) D L H1 H2 H3) as X. cbv zeta in X.
     destruct (asave (c_mvcc c) t (s_db s, s_lru s)) as [db2 lru2]. simpl in X.
     destruct X as (D2 & L2 & M2 & B2). inversion H; subst. simpl. rewrite H4 in B2. auto.
@@ -531,30 +531,26 @@ Section NoMem.
   Qed.
 
   (** every operation keeps the invariant; Set and Commit of a real tree return a stored root *)
-  Lemma st_set_closed : forall ord s r bh kvs r' s',
-    closed s -> s_alias s = [] -> root_ok (s_db s) r -> st_set ord c s r bh kvs = Ok (r', s') ->
+  Lemma st_set_closed : forall s r bh kvs r' s',
+    closed s -> root_ok (s_db s) r -> st_set c s r bh kvs = Ok (r', s') ->
     closed s' /\ root_ok (s_db s') r' /\ (forall K, bound (s_db s) K -> bound (s_db s') K).
   Proof.
-    intros ord s r bh kvs r' s' CL AL0 R H.
+    intros s r bh kvs r' s' CL R H.
     pose proof CL as (S & D & L & P).
-    destruct (st_set_ok _ _ _ _ _ _ _ _ S H) as [SS _].
+    destruct (st_set_ok _ _ _ _ _ _ _ S H) as [SS _].
     unfold st_set in H.
     destruct (prepare c s r bh kvs) as [[[[o lru1] mem1] obs]| | |] eqn:PR; try discriminate.
     destruct (prepare_closed _ _ _ _ _ _ _ _ CL R PR) as (LC & ME & ML & TR). subst mem1.
     assert (CL1 : closed (with_caches s lru1 (s_mem s))).
     { split; [apply with_caches_sound; auto; apply S|]. split; [exact D|]. split; [exact LC|exact P]. }
     destruct o as [t|].
-    - match type of H with context [do_save ord c _ t bh ?x] => set (rh := x) in H end.
-      destruct (do_save ord c (with_caches s lru1 (s_mem s)) t bh rh) as [s1|] eqn:SV; [|discriminate].
+    - destruct (do_save c (with_caches s lru1 (s_mem s)) t bh) as [s1|] eqn:SV; [|discriminate].
       injection H as <- <-.
-      destruct (do_save_closed _ _ _ _ _ _ CL1 TR SV SS) as (D1 & L1 & M1 & B1 & PE).
-      assert (RH : rh = ahash t).
-      { subst rh. destruct kvs; [|reflexivity]. unfold root_says. rewrite AL0.
-        destruct r as [h|]; reflexivity. }
+      destruct (do_save_closed _ _ _ _ CL1 TR SV SS) as (D1 & L1 & M1 & B1 & PE).
       split; [|split; [|exact M1]].
       + split; [exact SS|]. split; [exact D1|]. split; [exact L1|].
         rewrite PE. simpl. eapply pend_closed_mono; eauto.
-      + rewrite RH. exact B1.
+      + exact B1.
     - injection H as <- <-. split; [exact CL1|]. split; [exact I|auto].
   Qed.
 End NoMem.
@@ -588,50 +584,47 @@ Section NoMem2.
         split; [exact SS|]. split; [exact D|]. split; [exact LC|exact P].
   Qed.
 
-  Lemma st_commit_closed : forall ord s r r' s',
-    closed s -> st_commit ord c s r = Ok (r', s') ->
+  Lemma st_commit_closed : forall s r r' s',
+    closed s -> st_commit c s r = Ok (r', s') ->
     closed s' /\ (forall K, bound (s_db s) K -> bound (s_db s') K) /\
-    (forall t bh, p_get (s_pend s) r = Some (Some (t, bh)) -> root_ok (s_db s') r') /\
-    (s_alias s = [] -> s_alias s' = []).
+    (forall t bh, p_get (s_pend s) r = Some (Some (t, bh)) -> root_ok (s_db s') r').
   Proof.
-    intros ord s r r' s' CL H.
+    intros s r r' s' CL H.
     pose proof CL as (S & D & L & P).
-    destruct (st_commit_ok _ _ _ _ _ _ S H) as [SS ->].
+    destruct (st_commit_ok _ _ _ _ _ S H) as [SS ->].
     unfold st_commit in H. destruct (p_get (s_pend s) r) as [[[t bh]|]|] eqn:PG; try discriminate.
-    - destruct (do_save ord c s t bh (ahash t)) as [s1|] eqn:SV; [|discriminate].
+    - destruct (do_save c s t bh) as [s1|] eqn:SV; [|discriminate].
       injection H as <-.
       destruct (P _ _ _ PG) as [TR RR].
       assert (SS1 : store_sound s1).
-      { destruct TR as (_ & AC & _). exact (do_save_sound _ _ _ _ _ _ _ S AC SV). }
-      destruct (do_save_closed c NP _ _ _ _ _ _ CL TR SV SS1) as (D1 & L1 & M1 & B1 & PE).
-      split; [|split; [exact M1|split]].
+      { destruct TR as (_ & AC & _). exact (do_save_sound _ _ _ _ _ S AC SV). }
+      destruct (do_save_closed c NP _ _ _ _ CL TR SV SS1) as (D1 & L1 & M1 & B1 & PE).
+      split; [|split; [exact M1|]].
       + split; [exact SS|]. split; [exact D1|]. split; [exact L1|].
         simpl. intros r0 t0 bh0 G. apply p_get_del in G.
         destruct (P _ _ _ G) as [(A1 & A2 & A3 & A4) A5]. split; [|exact A5].
         split; [eapply hashed_ok_mono; eauto|auto].
       + intros t0 bh0 _. subst r. exact B1.
-      + intros A. simpl. eapply do_save_noalias; eauto.
-    - injection H as <-. split; [|split; [auto|split]].
+    - injection H as <-. split; [|split; [auto|]].
       + split; [exact SS|]. split; [exact D|]. split; [exact L|].
         simpl. intros r0 t0 bh0 G. apply p_get_del in G. eapply P; eauto.
       + intros t0 bh0 X. discriminate.
-      + intros A. exact A.
   Qed.
 
   Lemma st_rollback_closed : forall s r r' s',
-    closed s -> st_rollback c s r = Ok (r', s') -> closed s' /\ s_db s' = s_db s /\ s_alias s' = s_alias s.
+    closed s -> st_rollback c s r = Ok (r', s') -> closed s' /\ s_db s' = s_db s.
   Proof.
     intros s r r' s' CL H. pose proof CL as (S & D & L & P).
     destruct (st_rollback_ok _ _ _ _ _ S H) as [SS _].
     unfold st_rollback in H. destruct (p_get (s_pend s) r); [|discriminate].
-    injection H as <- <-. split; [|split; reflexivity].
+    injection H as <- <-. split; [|reflexivity].
     split; [exact SS|]. split; [exact D|]. split; [exact L|].
     simpl. intros r0 t0 bh0 G. apply p_get_del in G. eapply P; eauto.
   Qed.
 
   Lemma st_probe_closed : forall s r o s',
     closed s -> st_probe c s r = Ok (o, s') ->
-    closed s' /\ s_db s' = s_db s /\ (s_alias s = [] -> s_alias s' = []).
+    closed s' /\ s_db s' = s_db s.
   Proof.
     intros s r o s' CL H. pose proof CL as (S & D & L & P).
     destruct (st_probe_ok _ _ _ _ _ S H) as [SS _].
@@ -640,15 +633,14 @@ Section NoMem2.
       destruct (run_log c (s_db s) (visits t []) (s_lru s, s_mem s, [])) as [[l1 m1] o1] eqn:RL.
       injection H as <- <-.
       destruct (run_log_closed _ _ _ _ _ _ _ _ _ NM D L RL) as [LC ME].
-      split; [|split; [reflexivity|]].
-      + split; [exact SS|]. split; [exact D|]. split; [exact LC|exact P].
-      + intros A. simpl. rewrite A. reflexivity.
-    - injection H as <- <-. split; [exact CL|]. split; [reflexivity|auto].
+      split; [|reflexivity].
+      split; [exact SS|]. split; [exact D|]. split; [exact LC|exact P].
+    - injection H as <- <-. split; [exact CL|reflexivity].
   Qed.
 
   (** histories whose updates only build on the empty root or on roots that the
       history committed (Set, or Commit of a real pending tree) *)
-  Fixpoint wf_exec (ord : hash -> N) (s : store) (committed : list root) (ops : list sop) : Prop :=
+  Fixpoint wf_exec (s : store) (committed : list root) (ops : list sop) : Prop :=
     match ops with
     | [] => True
     | o :: tl =>
@@ -656,90 +648,88 @@ Section NoMem2.
         | SSet r _ _ | SMemSet r _ _ => In r committed
         | _ => True
         end /\
-        let '(s', cr) := apply_sop ord c s o in
+        let '(s', cr) := apply_sop c s o in
         let cr' := match o with
                    | SCommit r => match p_get (s_pend s) r with Some (Some _) => cr | _ => None end
                    | _ => cr
                    end in
-        wf_exec ord s' (match cr' with Some r => r :: committed | None => committed end) tl
+        wf_exec s' (match cr' with Some r => r :: committed | None => committed end) tl
     end.
 
-  Fixpoint exec' (ord : hash -> N) (s : store) (committed : list root) (ops : list sop) : store * list root :=
+  Fixpoint exec' (s : store) (committed : list root) (ops : list sop) : store * list root :=
     match ops with
     | [] => (s, committed)
     | o :: tl =>
-        let '(s', cr) := apply_sop ord c s o in
+        let '(s', cr) := apply_sop c s o in
         let cr' := match o with
                    | SCommit r => match p_get (s_pend s) r with Some (Some _) => cr | _ => None end
                    | _ => cr
                    end in
-        exec' ord s' (match cr' with Some r => r :: committed | None => committed end) tl
+        exec' s' (match cr' with Some r => r :: committed | None => committed end) tl
     end.
 
   Definition inv (s : store) (committed : list root) : Prop :=
-    closed s /\ s_alias s = [] /\ forall r, In r committed -> root_ok (s_db s) r.
+    closed s /\ forall r, In r committed -> root_ok (s_db s) r.
 
   Lemma root_ok_mono : forall db db' r, (forall K, bound db K -> bound db' K) -> root_ok db r -> root_ok db' r.
   Proof. intros db db' [h|] M R; simpl in *; auto. Qed.
 
-  Lemma step_inv : forall ord s cm o,
+  Lemma step_inv : forall s cm o,
     inv s cm ->
     match o with SSet r _ _ | SMemSet r _ _ => In r cm | _ => True end ->
-    let '(s', cr) := apply_sop ord c s o in
+    let '(s', cr) := apply_sop c s o in
     let cr' := match o with
                | SCommit r => match p_get (s_pend s) r with Some (Some _) => cr | _ => None end
                | _ => cr
                end in
     inv s' (match cr' with Some r => r :: cm | None => cm end).
   Proof.
-    intros ord s cm o (CL & AL & CM) W. destruct o as [r bh kvs|r bh kvs|r|r|r]; simpl.
-    - destruct (st_set ord c s r bh kvs) as [[r' s']| | |] eqn:H; try (split; [exact CL|split; [exact AL|exact CM]]).
-      destruct (st_set_closed c NM NP _ _ _ _ _ _ _ CL AL (CM _ W) H) as (CL' & R' & M).
-      split; [exact CL'|]. split.
-      + pose proof (apply_sop_noalias ord c s (SSet r bh kvs) NP AL) as X. simpl in X. rewrite H in X. exact X.
-      + intros r0 [<-|IN]; [exact R'|]. exact (root_ok_mono _ _ _ M (CM _ IN)).
-    - destruct (st_memset c s r bh kvs) as [[r' s']| | |] eqn:H; try (split; [exact CL|split; [exact AL|exact CM]]).
-      pose proof (apply_sop_noalias ord c s (SMemSet r bh kvs) NP AL) as X. simpl in X. rewrite H in X. simpl in X.
+    intros s cm o (CL & CM) W. destruct o as [r bh kvs|r bh kvs|r|r|r]; simpl.
+    - destruct (st_set c s r bh kvs) as [[r' s']| | |] eqn:H; try (split; [exact CL|exact CM]).
+      destruct (st_set_closed c NM NP _ _ _ _ _ _ CL (CM _ W) H) as (CL' & R' & M).
+      split; [exact CL'|].
+      intros r0 [<-|IN]; [exact R'|]. exact (root_ok_mono _ _ _ M (CM _ IN)).
+    - destruct (st_memset c s r bh kvs) as [[r' s']| | |] eqn:H; try (split; [exact CL|exact CM]).
       destruct (st_memset_closed _ _ _ _ _ _ CL (CM _ W) H) as (CL' & DB).
-      split; [exact CL'|]. split; [exact X|]. intros r0 IN. rewrite DB. auto.
-    - destruct (st_commit ord c s r) as [[r' s']| | |] eqn:H.
-      + destruct (st_commit_closed _ _ _ _ _ CL H) as (CL' & M & RO & A').
+      split; [exact CL'|]. intros r0 IN. rewrite DB. auto.
+    - destruct (st_commit c s r) as [[r' s']| | |] eqn:H.
+      + destruct (st_commit_closed _ _ _ _ CL H) as (CL' & M & RO).
         destruct (p_get (s_pend s) r) as [[[t bh]|]|] eqn:PG.
-        * split; [exact CL'|]. split; [auto|]. intros r0 [<-|IN]; [exact (RO _ _ eq_refl)|]. exact (root_ok_mono _ _ _ M (CM _ IN)).
-        * split; [exact CL'|]. split; [auto|]. intros r0 IN. exact (root_ok_mono _ _ _ M (CM _ IN)).
-        * split; [exact CL'|]. split; [auto|]. intros r0 IN. exact (root_ok_mono _ _ _ M (CM _ IN)).
-      + destruct (p_get (s_pend s) r) as [[x|]|]; (split; [exact CL|split; [exact AL|exact CM]]).
-      + destruct (p_get (s_pend s) r) as [[x|]|]; (split; [exact CL|split; [exact AL|exact CM]]).
-      + destruct (p_get (s_pend s) r) as [[x|]|]; (split; [exact CL|split; [exact AL|exact CM]]).
-    - destruct (st_rollback c s r) as [[r' s']| | |] eqn:H; try (split; [exact CL|split; [exact AL|exact CM]]).
-      destruct (st_rollback_closed _ _ _ _ CL H) as (CL' & DB & A'). simpl.
-      split; [exact CL'|]. split; [congruence|]. intros r0 IN. rewrite DB. auto.
-    - destruct (st_probe c s r) as [[o' s']| | |] eqn:H; try (split; [exact CL|split; [exact AL|exact CM]]).
-      destruct (st_probe_closed _ _ _ _ CL H) as (CL' & DB & A'). simpl.
-      split; [exact CL'|]. split; [auto|]. intros r0 IN. rewrite DB. auto.
+        * split; [exact CL'|]. intros r0 [<-|IN]; [exact (RO _ _ eq_refl)|]. exact (root_ok_mono _ _ _ M (CM _ IN)).
+        * split; [exact CL'|]. intros r0 IN. exact (root_ok_mono _ _ _ M (CM _ IN)).
+        * split; [exact CL'|]. intros r0 IN. exact (root_ok_mono _ _ _ M (CM _ IN)).
+      + destruct (p_get (s_pend s) r) as [[x|]|]; (split; [exact CL|exact CM]).
+      + destruct (p_get (s_pend s) r) as [[x|]|]; (split; [exact CL|exact CM]).
+      + destruct (p_get (s_pend s) r) as [[x|]|]; (split; [exact CL|exact CM]).
+    - destruct (st_rollback c s r) as [[r' s']| | |] eqn:H; try (split; [exact CL|exact CM]).
+      destruct (st_rollback_closed _ _ _ _ CL H) as (CL' & DB). simpl.
+      split; [exact CL'|]. intros r0 IN. rewrite DB. auto.
+    - destruct (st_probe c s r) as [[o' s']| | |] eqn:H; try (split; [exact CL|exact CM]).
+      destruct (st_probe_closed _ _ _ _ CL H) as (CL' & DB). simpl.
+      split; [exact CL'|]. intros r0 IN. rewrite DB. auto.
   Qed.
 
-  Lemma exec'_inv : forall ord ops s cm,
-    inv s cm -> wf_exec ord s cm ops -> inv (fst (exec' ord s cm ops)) (snd (exec' ord s cm ops)).
+  Lemma exec'_inv : forall ops s cm,
+    inv s cm -> wf_exec s cm ops -> inv (fst (exec' s cm ops)) (snd (exec' s cm ops)).
   Proof.
-    intros ord. induction ops as [|o ops IH]; intros s cm I W; simpl; [exact I|].
+    induction ops as [|o ops IH]; intros s cm I W; simpl; [exact I|].
     simpl in W. destruct W as [W1 W2].
-    pose proof (step_inv ord s cm o I W1) as ST.
-    destruct (apply_sop ord c s o) as [s' cr]. apply IH; auto.
+    pose proof (step_inv s cm o I W1) as ST.
+    destruct (apply_sop c s o) as [s' cr]. apply IH; auto.
   Qed.
 
   (** The totality theorem for configurations without memTree and without prune:
       after every well-formed history, every update of a committed root succeeds. *)
-  Theorem update_total_nomem : forall ord ops r pending bh kvs,
-    wf_exec ord empty_store [None] ops ->
-    In r (snd (exec' ord empty_store [None] ops)) ->
-    exists r' s', st_update pending ord c (fst (exec' ord empty_store [None] ops)) r bh kvs = Ok (r', s').
+  Theorem update_total_nomem : forall ops r pending bh kvs,
+    wf_exec empty_store [None] ops ->
+    In r (snd (exec' empty_store [None] ops)) ->
+    exists r' s', st_update pending c (fst (exec' empty_store [None] ops)) r bh kvs = Ok (r', s').
   Proof.
-    intros ord ops r pending bh kvs W IN.
+    intros ops r pending bh kvs W IN.
     assert (I0 : inv empty_store [None]).
-    { split; [apply closed_empty|]. split; [reflexivity|]. intros r0 [<-|[]]. exact I. }
-    destruct (exec'_inv ord ops empty_store [None] I0 W) as (CL & AL & CM).
-    set (s := fst (exec' ord empty_store [None] ops)) in *.
+    { split; [apply closed_empty|]. intros r0 [<-|[]]. exact I. }
+    destruct (exec'_inv ops empty_store [None] I0 W) as (CL & CM).
+    set (s := fst (exec' empty_store [None] ops)) in *.
     pose proof (CM _ IN) as R.
     apply update_total_partial.
     - apply CL.
